@@ -28,7 +28,7 @@ ASSUMPTIONS = ['grids carry no repeated values (the table key must identify the 
                'workers are forked (Linux default), so the score table set before the call is visible to them']
 FLOORS = {'quick': {'searches': 300, 'parallel_searches': 150, 'results_checked': 1500, 'mode_0': 15, 'mode_1': 15, 'mode_2': 15, 'mode_3': 15,
                     'mode_4': 15, 'mode_5': 15, 'mode_6': 15, 'mode_7': 15, 'tied_optimum': 40, 'optimum_last': 30, 'optimum_first': 30,
-                    'optimum_middle': 20, 'beyond_maxsize_tables': 40, 'limit_below_completion': 30,
+                    'optimum_middle': 20, 'beyond_maxsize_tables': 40, 'style_bigint': 30, 'style_nearmax': 8, 'limit_below_completion': 30,
                     'reach:Batching.grid_search': 300, 'reach:Batching._score_model_for_search': 1500},
           'thorough': {'searches': 12000, 'parallel_searches': 6000}}
 EXHAUSTIVE = {}
@@ -60,6 +60,10 @@ def gen_table(rng, n, reps, style, mode):
             return -rng.uniform(1e19, 1e30)
         if style == 'hugepos':
             return rng.uniform(1e19, 1e30)
+        if style == 'bigint':
+            return 2 ** 60 + rng.randint(-9, 9)          # integer scores a double cannot represent
+        if style == 'nearmax':
+            return rng.choice([1, -1]) * rng.uniform(1.0e308, 1.7e308)
         return rng.uniform(-100, 100)
     rows = [[val() for _ in range(reps)] for _ in range(n)]
     # place the optimum / ties
@@ -95,7 +99,8 @@ def case_search(ctx, case):
     stop = rng.choice([0, 0, 1, 3])
     lim = rng.choice([None, None, stop + 2, stop + 1, max(0, stop - 1), stop])
     grid['stop'] = stop
-    style = rng.choice(['dyadic', 'dyadic', 'int', 'wild', 'huge', 'hugeneg', 'hugepos'])
+    style = rng.choice(['dyadic', 'dyadic', 'int', 'wild', 'huge', 'hugeneg', 'hugepos', 'bigint'] + (['nearmax'] if mode < 4 else []))
+    ctx.count('style_' + style)
     combos = batching.ParameterList(dict(grid)).build() if False else None
     # reference product (first-declared slowest), independent of ParameterList
     ref = [[]]
@@ -142,7 +147,8 @@ def case_search(ctx, case):
             if list(res['records']) != list(row):
                 raise CaseViolation(f'result #{j}: individual scores {res["records"]} differ from the score function\'s values {row}', **detail)
             sc = res['score']
-            ok = Fraction(sc) == ex or sc == float(ex)
+            ok = Fraction(sc) == ex or (sc == float(ex) and not (style in ('int', 'bigint') and ex.denominator == 1))
+            # (integer scores with an integral aggregate must be reported exactly, not rounded to a double)
             if not ok and style in ('wild', 'huge', 'hugeneg', 'hugepos') and mode in (4, 5, 6, 7, 2, 3):
                 scale = max(abs(float(ex)), max(abs(x) for x in row) ** (2 if mode >= 6 else 1) * 1e-3, 1e-300)
                 ok = abs(float(Fraction(sc) - ex)) <= 1e-9 * scale
